@@ -8,6 +8,7 @@ import Driver.Interp
 import Driver.Solve
 import Driver.Threads
 import Driver.Special
+import Driver.Simd
 /-! `adept_model <family>`: line protocol on stdin/stdout, one result line per input line.
     Every import of this file must stay free of Mathlib (the driver is linked natively). -/
 open Adept Adept.Drv
@@ -23,4 +24,5 @@ def main (args : List String) : IO UInt32 := do
   | ["solve"] => runFamily SolveDrv.step (); return 0
   | ["threads"] => runFamily ThreadsDrv.step {}; return 0
   | ["special"] => runFamily SpecialDrv.step (); return 0
+  | ["simd"] => runFamily SimdDrv.step (); return 0
   | _ => IO.eprintln "usage: adept_model <family>"; return 2
